@@ -11,7 +11,9 @@ ALL = ["C%02d" % i for i in range(1, 21)]
 # property -> (technique, level text, level note, design ref)
 CLAIMED = {
     "C01": ("TLA+ definition layer (Def.tla big-step evaluator) enumerates every program up to a size bound with TLC; "
-            "each TLC state is replayed through lisp.EVAL and compared (value, error-ness, effect order, globals)",
+            "each TLC state is replayed through lisp.EVAL and compared (value, error-ness, effect order, globals); "
+            "random larger programs recorded from the real code are validated by TraceDef.tla; Eval.tla (small-step "
+            "machine of EVAL) is checked by TLC to refine Def and validated against every real loop iteration (TraceEval)",
             "Exhaustive small-scope model-based conformance: every program of the GenC01 grammar up to MaxSize nodes "
             "(quick 4: 26k programs, thorough 5: 575k) plus a random sample of larger ones is evaluated by the "
             "specification's definition layer in TLC and replayed on the real interpreter in a fresh environment.",
@@ -23,7 +25,8 @@ CLAIMED = {
             "Exhaustive small-scope conformance of 49 builtins against the abstract sequence/map/set model: every "
             "argument tuple of arity 0..2 over a 33-value pool, arity 3 over a pool prefix (80k-250k calls); value "
             "(kind-exact, unordered results as multisets), error where the model says error; the oracle abstains "
-            "where README/step files/mal guide are silent.",
+            "where README/step files/mal guide are silent; random nested compositions of builtins recorded from the real "
+            "code are validated by TraceDef.tla; the oracle itself is validated against tests/step*.mal (StepFiles.tla).",
             "Trusts TLC and the harness bridge; Coll.tla transcribes the documented behaviour (validated against the "
             "step files); argument values beyond the pool are not explored.",
             "§8 C13"),
@@ -36,7 +39,8 @@ CLAIMED = {
             "§8 C14"),
     "C03": ("Def.tla defines try/catch/finally/throw exactly as the property states; TLC enumerates every program up to "
             "a size bound over a try/catch/finally grammar (throws from body, callee, macro, Go error return, Go panic, "
-            "handler; thrown objects of every kind) and each is replayed through lisp.EVAL",
+            "handler; thrown objects of every kind) and each is replayed through lisp.EVAL; random larger try programs are "
+            "validated by TraceDef.tla and the real loop iterations of the grammar's programs by TraceEval.tla",
             "Exhaustive small-scope conformance: quick all programs <= 3 nodes (4.6k) + 4k sampled of size 5; thorough "
             "<= 4 nodes (110k) + 50k of size 6. Compared: result or thrown object (structural, sentinel identity via "
             "errors.Is for Go errors), effect order of body/handler/finally, catch variable not visible outside.",
@@ -45,7 +49,8 @@ CLAIMED = {
             "§8 C03"),
     "C12": ("Def.tla defines quasiquote as template substitution and macro calls by expansion in the caller's scope; TLC "
             "enumerates every template / macro-call program up to a size bound; replayed through lisp.EVAL (which "
-            "implements the cons/concat/vec rewrite) and compared, including macroexpand and eval-of-macroexpand routes",
+            "implements the cons/concat/vec rewrite) and compared, including macroexpand and eval-of-macroexpand routes; "
+            "random larger templates validated by TraceDef.tla; real loop iterations (expansion inside the loop) by TraceEval.tla",
             "Exhaustive small-scope conformance of two grammars (quick: 17k templates + 10k macro programs; thorough: "
             "~200k + ~70k): value, effect order, expansion (generated symbols up to renaming).",
             "Trusts TLC, harness bridge; position of the failure of a non-sequence splice relative to later effects is "
@@ -54,7 +59,8 @@ CLAIMED = {
     "C02": ("Implementation-shaped TLA+ model of Go slices (GenC02.tla: heap of backing arrays, headers, in-place "
             "append when len<cap, which builtin copies/aliases/appends) explored by TLC over all operation histories; "
             "each history (model-dangerous ones flagged) replayed on the real code for every seed construction path, "
-            "re-reading every earlier binding after every step, final values compared with Def.tla",
+            "re-reading every earlier binding after every step, final values compared with Def.tla; long random "
+            "histories recorded from the real code validated by TraceDef.tla",
             "Exhaustive over histories of length 2 (quick) / 3 (thorough) of 21 sequence ops and 15 map ops x 18/11 "
             "seed construction paths x {text, AST} routes.",
             "Real slice capacities are decided by the Go runtime; the harness realises spare capacity through the "
@@ -62,7 +68,8 @@ CLAIMED = {
             "§8 C02"),
     "C05": ("Text.tla (character-level scanner/reader/printer definition) classifies EVERY string up to a length bound "
             "over five 14-character alphabets; TLC enumerates them (and asserts the model's own totality/round trip); "
-            "each text is fed to every read entry point of the real code under recover and a watchdog",
+            "each text is fed to every read entry point of the real code under recover and a watchdog; a random "
+            "byte-string driver (invalid UTF-8, NUL, long inputs) monitors the same entry points",
             "Exhaustive small-scope totality check: 190k distinct texts of length <= 4 (quick), ~2.6M of length <= 5 "
             "(thorough), x 8 read routes (READ nil/loaded env, READWithPreamble, Read_str with nil/empty/populated "
             "placeholder map, read-string) followed by PRINT.",
@@ -72,7 +79,8 @@ CLAIMED = {
     "C06": ("Text.tla defines printer and reader; TLC enumerates data values whose strings range over every string up to "
             "a length bound over the 12 characters the printer/reader treat specially (asserting the model's own round "
             "trip for each), and every accepted text of the C05/C16 enumerations; the real PRINT/READ and "
-            "pr-str/read-string are replayed and compared structurally, the value read is compared with Text.tla's",
+            "pr-str/read-string are replayed and compared structurally, the value read is compared with Text.tla's; "
+            "a random value driver monitors the round trip beyond the alphabet",
             "Exhaustive small-scope round-trip conformance in both directions (values -> text -> values; text -> value "
             "-> text -> value): 9.5k/113k values, 160k/400k texts.",
             "Strings outside the alphabet only via the random driver; float literals excluded by the property.",
@@ -129,7 +137,8 @@ CLAIMED = {
             "other sub-evaluation is one level deeper); TLC enumerates every loop shape (nests of tail constructs, with and "
             "without one non-tail construct, over 1..3 mutually recursive functions), asserts on the model that tail shapes "
             "are constant and controls grow, and predicts the sign of every depth difference; the real host stack depth at "
-            "each probe call is compared, and long runs of the tail shapes must stay constant",
+            "each probe call is compared, and long runs of the tail shapes must stay constant; Eval.tla's count of live "
+            "activations is compared for EQUALITY with the real number of EVAL frames at every loop iteration (TraceEval)",
             "Exhaustive over nests of depth <= 2 (quick, 3.8k loops) / <= 3 (thorough, ~30k), 4 iterations each, plus "
             "60/400 long runs (10^3..3*10^5 iterations).",
             "Absolute depths are not compared (only signs of differences): a refactor adding a constant number of frames is "
@@ -138,8 +147,11 @@ CLAIMED = {
     "C18": ("Def.tla gives each program's outcome and the SET of (form, visible bindings) pairs its evaluation visits "
             "(quasiquote through the rewrite as coded, QQRewrite); TLC enumerates programs of three grammars; the real code "
             "runs each program without a stepper and under every cyclic command script up to a length bound (separate "
-            "processes: the stepper is process-wide state), comparing outcome and every callback argument with the model",
-            "Exhaustive: 612 programs x 85 (quick) / ~2.4k programs x 341 (thorough) stepper scripts.",
+            "processes: the stepper is process-wide state), comparing outcome and every callback argument with the model; "
+            "Eval.tla models the stepper's flag protocol step by step and TraceStep.tla validates every real consultation "
+            "(form, live EVAL frames, flags, answer) of 22 scripts per program",
+            "Exhaustive: 636 programs x 85 (quick) / ~2.4k programs x 341 (thorough) stepper scripts, programs delivered as "
+            "AST and as text under a module name; 16k (quick) / 62k recorded consultation traces validated.",
             "Scripts are cyclic sequences (the callback's answer depends only on how many times it was called); the "
             "interactive debugger engine (keyboard) is not driven.",
             "§8 C18"),
